@@ -250,8 +250,10 @@ class DataSet:
             2: _parse_v2,
         }
 
-        version: int = dictionary.get("version", VERSION)
-        del dictionary["version"]
+        # Work on a copy so that the dictionary provided by the caller can be
+        # used again (e.g., to create several instances).
+        dictionary = dictionary.copy()
+        version: int = dictionary.pop("version", VERSION)
 
         if version > VERSION:
             raise ValueError(f"Unsupported version: {version=} > {VERSION=}")
